@@ -542,6 +542,9 @@ def fn_rule(ctx, method, rule="ALG-Fn"):
                 f = tr_fields(ev, lin.norm(it[0]))
                 if f is None or f[2] != ("attr", pop, "trace_map"):
                     ck.fail("generate(None) = simulate", f"found {short(it[0], ev)}")
+                else:
+                    # ... of THIS call: same (args, kwargs) recorded, source run on them, the Simulate run's own score
+                    expect_tr(it[0], pop, "generate(None) = simulate(*args, **kwargs):")
                 zero(it[1], "generate(None) weight = 0")
             else:
                 expect_tr(it[0], pop, "generate(x)")
